@@ -667,6 +667,67 @@ def huge_pending_case(seed, prop, rep):
         r.done()
 
 
+def linked_config_case(seed, prop, rep):
+    """the configuration file is a symbolic link to a file kept in another git repository (a shared
+    configuration repository linked into the monorepo root). The work path is the directory of the
+    path given with -f: `update` records the HEAD of *this* repository, `show` returns it, and after
+    `delete` nothing is checkpointed."""
+    import shutil
+    import subprocess as _sp
+    rng = scen.Rng(seed)
+    r = scen.Repo(TARGETS, git=True)
+    import tempfile
+    other = tempfile.mkdtemp(prefix="cfgrepo-", dir=scen.scratch_root())
+    case = {"seed": seed, "prop": prop, "mode": "linked_config"}
+
+    def bad(kind, **kw):
+        if prop == "C19":
+            rep.oracle_fail(dict({"kind": kind, "case": case}, **kw))
+        else:
+            rep.count("violations_of_C19")
+
+    try:
+        for a in (["init", "-q", "-b", "main"], ["config", "user.email", "v@example.com"], ["config", "user.name", "v"],
+                  ["config", "commit.gpgsign", "false"]):
+            _sp.run(["git"] + a, cwd=other, check=True, stdout=_sp.DEVNULL, stderr=_sp.DEVNULL)
+        shutil.move(r.cfg_path, os.path.join(other, "Monorail.json"))
+        for a in (["add", "-A"], ["commit", "-q", "-m", "shared configuration"]):
+            _sp.run(["git"] + a, cwd=other, check=True, stdout=_sp.DEVNULL, stderr=_sp.DEVNULL)
+        os.symlink(os.path.join(other, "Monorail.json"), r.cfg_path)
+        for t in TARGETS:
+            r.install(t["path"], "build")
+        r.commit_all("initial")
+        allt = sorted(t["path"] for t in TARGETS)
+        for k in range(rng.range(2, 4)):
+            t = rng.pick(TARGETS)["path"]
+            with open(os.path.join(r.dir, t, "f%d.txt" % k), "w") as f:
+                f.write("edit %d\n" % k)
+            head = r.commit_all("c%d" % k)
+            rc, j, out, err = r.mono("checkpoint", "update")
+            rep.evaluations += 1
+            rep.count("linked_config_updates")
+            if rc != 0 or j is None:
+                return bad("checkpoint update failed", rc=rc, stderr=err[-300:], detail="Monorail.json is a symbolic link into another git repository")
+            returned = real_ck(j["checkpoint"])
+            if returned["id"] != head:
+                return bad("update without --id did not record the commit HEAD resolves to", recorded=returned["id"], head=head,
+                           detail="Monorail.json is a symbolic link into another git repository, whose HEAD is a different commit")
+            rc2, j2, out2, err2 = r.mono("checkpoint", "show")
+            if rc2 != 0 or real_ck((j2 or {}).get("checkpoint")) != returned:
+                return bad("checkpoint show is not what the update returned", show_rc=rc2, stderr=err2[-300:])
+        rc, j, out, err = r.mono("checkpoint", "delete")
+        rc2, j2, out2, err2 = r.mono("checkpoint", "show")
+        if rc != 0 or rc2 == 0:
+            return bad("checkpoint show succeeds after delete", delete_rc=rc, show_rc=rc2)
+        rc3, j3, out3, err3 = r.mono("analyze")
+        if rc3 != 0 or j3 is None or j3.get("checkpointed") is not False or sorted(j3.get("targets", [])) != allt:
+            return bad("without a checkpoint analyze does not report every target", rc=rc3, answer=j3, stderr=err3[-300:])
+        rep.nontrivial_case(case)
+    finally:
+        shutil.rmtree(other, ignore_errors=True)
+        r.done()
+
+
 def main():
     args = scen.parse_args(sys.argv)
     prop = args["prop"]
@@ -674,17 +735,26 @@ def main():
     rep = scen.Report()
     model = scen.Model()
     cases = []
+    special = []
     for c in scen.load_corpus(args["corpus"], prop):
         cc = c.get("case", c)
-        if "seed" in cc:
+        if cc.get("mode") == "linked_config":
+            special.append((linked_config_case, cc["seed"]))
+        elif cc.get("mode") == "huge_pending":
+            special.append((huge_pending_case, cc["seed"]))
+        elif "seed" in cc:
             cases.append((cc["seed"], cc.get("length", 25)))
     rng = scen.Rng(args["seed"])
     n = (200 if args["tier"] == "thorough" else 40) * args["budget"]
     for _ in range(n):
         cases.append((rng.next(), rng.range(10, 30) if args["tier"] == "quick" else rng.range(15, 80)))
     scen.run_cases(lambda c: run_history(c[0], prop, model, rep, c[1]), cases, rep, 12)
+    special = [c for k, c in enumerate(special) if c not in special[:k]]
+    scen.run_cases(lambda c: c[0](c[1], prop, rep), special, rep, 2)
     if args["budget"] > 0 and prop in ("C19", "C07", "C02"):
         scen.run_cases(lambda sd: huge_pending_case(sd, prop, rep), [rng.next() for _ in range(3 if args["tier"] == "thorough" else 1)], rep, 2)
+    if args["budget"] > 0 and prop == "C19":
+        scen.run_cases(lambda sd: linked_config_case(sd, prop, rep), [rng.next() for _ in range(6 if args["tier"] == "thorough" else 2)], rep, 2)
     scen.finish(args, rep, t0, model)
 
 
